@@ -203,6 +203,11 @@ impl GrafeoDB {
 
         // Create query cache with default capacity (1000 queries)
         let query_cache = Arc::new(QueryCache::default());
+        #[cfg(grafeo_verif)]
+        let query_cache = match grafeo_common::verif::knob("query_cache.capacity") {
+            Some(v) => Arc::new(QueryCache::new(v as usize)),
+            None => query_cache,
+        };
 
         Ok(Self {
             config,
